@@ -65,6 +65,15 @@ theorem structures_are_closed_forms :
 /-- letters the wildcard `N` accepts (A, C, G, T, N in either case) -/
 def Plain (w : Word) : Prop := ∀ x ∈ w, clsMatch .N x = true
 
+theorem Plain_append (a b : Word) : Plain (a ++ b) ↔ Plain a ∧ Plain b := by
+  unfold Plain
+  constructor
+  · intro h; exact ⟨fun x hx => h x (List.mem_append_left _ hx), fun x hx => h x (List.mem_append_right _ hx)⟩
+  · rintro ⟨h1, h2⟩ x hx
+    rcases List.mem_append.mp hx with h | h
+    · exact h1 x h
+    · exact h2 x h
+
 /-- **what a well-formed module is typed as, for every geometry, every sequence and every rotation**:
 let the plasmid be any rotation of `site·x·o5·t·o3·y·rc(site)·b` with `|x| = |y| = off`, `|o5| = |o3| = k`,
 `|t| ≥ 2`, carrying exactly the structure once (`UniqueFit`) and passing the illegal-site screen.  Then the
@@ -169,6 +178,108 @@ theorem module_canonical (g : Geom) (S x o5 t o3 y S' b : Word)
     simp only [List.length_append, hSl, hx, ho5, List.length_cons, List.length_nil] at h1 h2
     rw [show g.site.length + g.off + g.k - (g.site.length + g.off) = g.k by omega,
       show L - (g.site.length + g.off + g.k) - (g.site.length + g.off + g.k) = tm.length + (0 + 1) + 1 by omega]
+    rw [hw]
+    congr 1
+    · simpa [List.append_assoc] using h1
+    · simpa [List.append_assoc] using h2
+
+/-- **what a well-formed vector is typed as**: let the plasmid be any rotation of
+`c0·o5·y·rc(site)·p·site·x·o3·c1·b` (i.e. of the documented `o3·B·o5·y·rc(site)·p·site·x` with backbone
+`B = c1·b·c0`, `|B| ≥ 2`), `|x| = |y| = off`, `|o5| = |o3| = k`, carrying the structure exactly once and passing
+the screen.  Then the generic vector class reports upstream overhang `o3`, downstream overhang `o5`, target
+`o3·c1·b·c0` — the vector backbone with its upstream overhang — and placeholder `o5·y·rc(site)·p·site·x`; the
+placeholder contributes nothing to an assembly -/
+theorem vector_canonical (g : Geom) (c0 c1 : Sym) (o5 y S' p S x o3 b : Word)
+    (hS : matchesAt g.site S) (hSl : S.length = g.site.length)
+    (hS' : matchesAt (rcNt g.site) S') (hS'l : S'.length = g.site.length)
+    (hx : x.length = g.off) (hy : y.length = g.off) (ho5 : o5.length = g.k) (ho3 : o3.length = g.k)
+    (hplain : Plain ([c0] ++ o5 ++ y ++ p ++ x ++ o3 ++ [c1]))
+    (hfit : UniqueFit (vectorStructure g) ([c0] ++ o5 ++ y ++ S' ++ p ++ S ++ x ++ o3 ++ [c1] ++ b))
+    (hscreen : validCuts g ([c0] ++ o5 ++ y ++ S' ++ p ++ S ++ x ++ o3 ++ [c1]) ≤ 2) (r : Nat) :
+    C02.report { kind := .vector, pat := vectorStructure g, geom := g }
+      (rotr ([c0] ++ o5 ++ y ++ S' ++ p ++ S ++ x ++ o3 ++ [c1] ++ b) r)
+      = .ok (o3, o5, o3 ++ [c1] ++ b ++ [c0], o5 ++ (y ++ S' ++ p ++ S ++ x)) := by
+  set w := [c0] ++ o5 ++ y ++ S' ++ p ++ S ++ x ++ o3 ++ [c1] ++ b with hw
+  set c : ClassSpec := { kind := .vector, pat := vectorStructure g, geom := g } with hc
+  have h3 : C02.ThreeGroups c.pat := C02.generic_three_groups .vector g
+  simp only [Plain_append] at hplain
+  obtain ⟨⟨⟨⟨⟨⟨p0, p5⟩, py⟩, pp⟩, px⟩, p3⟩, p1⟩ := hplain
+  have pA : Plain ([c0] ++ o5 ++ y) := (Plain_append _ _).mpr ⟨(Plain_append _ _).mpr ⟨p0, p5⟩, py⟩
+  have pB : Plain (x ++ o3 ++ [c1]) := (Plain_append _ _).mpr ⟨(Plain_append _ _).mpr ⟨px, p3⟩, p1⟩
+  have core : [c0] ++ o5 ++ y ++ S' ++ p ++ S ++ x ++ o3 ++ [c1] =
+      ([c0] ++ o5 ++ y) ++ S' ++ p ++ S ++ (x ++ o3 ++ [c1]) := by simp only [List.append_assoc]
+  obtain ⟨ms, hrun⟩ := vector_fits g ([c0] ++ o5 ++ y) S' p S (x ++ o3 ++ [c1]) hS hSl hS' hS'l
+    pA (by simp [ho5, hy]; omega) pp pB (by simp [hx, ho3]; omega)
+  rw [← core] at hrun
+  have hw0 : window w 0 = w := by
+    rw [window_eq_rotate w 0 (Nat.zero_le _)]; simp
+  set L := ([c0] ++ o5 ++ y ++ S' ++ p ++ S ++ x ++ o3 ++ [c1]).length with hL
+  have hrunw : Run (vectorStructure g) (window w 0) 0 ms L := by
+    rw [hw0, hw]; exact Run.extend hrun b
+  obtain ⟨i, ms', e', rel, hi, hr', hrel, hrev, hsearch, huniq⟩ := search_of_uniqueFit hfit
+  have hwpos : 0 < w.length := by omega
+  obtain ⟨ei, em, ee⟩ := huniq 0 ms _ hwpos hrunw
+  subst ei
+  have hustart : UniqueStart c.pat w := by
+    refine ⟨0, hwpos, by rw [show c.pat = vectorStructure g from rfl, hrel]; rfl, ?_⟩
+    intro j hj hsome
+    obtain ⟨rj, hrj⟩ := Option.isSome_iff_exists.mp hsome
+    obtain ⟨mj, ej, hrunj, _⟩ := relMatch_run hrj
+    exact (huniq j mj ej hj hrunj).1
+  rw [C02.report_rotr c w r h3 hustart]
+  have hmarks := (vector_run_marks g hrunw).1
+  rw [C02.report_of_view (c := c) h3 hwpos hrel hsearch]
+  have hrs : rel.reverse = ms ++ [L] := by rw [hrev, em, ee]
+  have hLval : L = 1 + g.k + g.off + g.site.length + p.length + g.site.length + g.off + g.k + 1 := by
+    simp [hL, hSl, hS'l, hx, hy, ho5, ho3]; omega
+  rw [hrs, hmarks, hw0]
+  have hg0 : vgroup w (([1, 1 + g.k, 1 + g.k, L - (g.k + 1), L - (g.k + 1), L - 1]) ++ [L]) 0
+      = [c0] ++ o5 ++ y ++ S' ++ p ++ S ++ x ++ o3 ++ [c1] := by
+    simp only [vgroup, rspan, slice, if_true, List.drop_zero, Nat.sub_zero]
+    rw [show ([1, 1 + g.k, 1 + g.k, L - (g.k + 1), L - (g.k + 1), L - 1] ++ [L]).getLastD 0 = L by simp]
+    rw [hw, hL, List.take_left']
+    rfl
+  rw [hg0, if_neg (by show ¬ validCuts g _ > 2; omega)]
+  have take_drop : ∀ (pre mid post : Word), ((pre ++ mid ++ post).drop pre.length).take mid.length = mid := by
+    intro pre mid post; simp [List.append_assoc]
+  simp only [ClassSpec.upGroup, ClassSpec.downGroup, vgroup, vTarget, rspan, slice, hc]
+  simp only [show (1:Nat) ≠ 0 by omega, show (2:Nat) ≠ 0 by omega, show (3:Nat) ≠ 0 by omega, if_false,
+    List.getD_cons_succ, List.getD_cons_zero, List.cons_append, List.nil_append]
+  congr 1
+  refine Prod.ext ?_ (Prod.ext ?_ (Prod.ext ?_ ?_))
+  · -- upstream overhang = group 3 = o3
+    show (w.drop (L - (g.k + 1))).take (L - 1 - (L - (g.k + 1))) = o3
+    have := take_drop ([c0] ++ o5 ++ y ++ S' ++ p ++ S ++ x) o3 ([c1] ++ b)
+    have e1 : ([c0] ++ o5 ++ y ++ S' ++ p ++ S ++ x).length = L - (g.k + 1) := by
+      simp [hLval, hSl, hS'l, hx, hy, ho5]; omega
+    rw [e1, ho3] at this
+    rw [show L - 1 - (L - (g.k + 1)) = g.k by omega]
+    rw [hw]; simpa [List.append_assoc] using this
+  · -- downstream overhang = group 1 = o5
+    show (w.drop 1).take (1 + g.k - 1) = o5
+    have := take_drop [c0] o5 (y ++ S' ++ p ++ S ++ x ++ o3 ++ [c1] ++ b)
+    simp only [List.length_singleton, ho5] at this
+    rw [show 1 + g.k - 1 = g.k by omega]
+    rw [hw]; simpa [List.append_assoc] using this
+  · -- target = text[b2:] ++ text[:a1] = o3 c1 b ++ c0
+    show w.drop (L - (g.k + 1)) ++ w.take 1 = o3 ++ [c1] ++ b ++ [c0]
+    have e1 : ([c0] ++ o5 ++ y ++ S' ++ p ++ S ++ x).length = L - (g.k + 1) := by
+      simp [hLval, hSl, hS'l, hx, hy, ho5]; omega
+    have hd : w.drop (L - (g.k + 1)) = o3 ++ [c1] ++ b := by
+      rw [← e1, hw]
+      have : [c0] ++ o5 ++ y ++ S' ++ p ++ S ++ x ++ o3 ++ [c1] ++ b =
+          ([c0] ++ o5 ++ y ++ S' ++ p ++ S ++ x) ++ (o3 ++ [c1] ++ b) := by simp [List.append_assoc]
+      rw [this, List.drop_left]
+    have ht1 : w.take 1 = [c0] := by rw [hw]; simp
+    rw [hd, ht1]
+  · -- placeholder = group 1 ++ group 2
+    show (w.drop 1).take (1 + g.k - 1) ++ (w.drop (1 + g.k)).take (L - (g.k + 1) - (1 + g.k))
+      = o5 ++ (y ++ S' ++ p ++ S ++ x)
+    have h1 := take_drop [c0] o5 (y ++ S' ++ p ++ S ++ x ++ o3 ++ [c1] ++ b)
+    have h2 := take_drop ([c0] ++ o5) (y ++ S' ++ p ++ S ++ x) (o3 ++ [c1] ++ b)
+    simp only [List.length_append, List.length_singleton, ho5, hy, hS'l, hSl, hx] at h1 h2
+    rw [show 1 + g.k - 1 = g.k by omega,
+      show L - (g.k + 1) - (1 + g.k) = g.off + g.site.length + p.length + g.site.length + g.off by omega]
     rw [hw]
     congr 1
     · simpa [List.append_assoc] using h1
